@@ -1,7 +1,7 @@
-from . import props_str
+from . import props_str, props_fmt
 
 PROPS = {}
-for mod in (props_str,):
+for mod in (props_str, props_fmt):
     for v in vars(mod).values():
         if v.__class__.__name__ == "Prop":
             PROPS[v.pid] = v
